@@ -12,7 +12,8 @@ REQUIRED_MONITORS = ["decomposition@SD_svalsvec", "pick@FDD_mpe(function, Hermit
                      "pick@FDD_MS.mpe", "pick@EFDD first stage", "narrow-band amplitudes@FDD"]
 ALL_STATES = ["band clipped by grid start", "band clipped by grid end", "selected frequency between lines", "maximum at band edge candidate",
               "several peaks in band", "non-square spectrum", "2 channels", "8 channels"]
-REQUIRED_STATES = ["band clipped by grid end", "selected frequency between lines", "several peaks in band", "non-square spectrum", "array object refilled in place", "band below 0 Hz while the dominant line of the grid is at Nyquist", "EFDD with cm=2"]
+REQUIRED_STATES = ["band clipped by grid end", "selected frequency between lines", "several peaks in band", "non-square spectrum", "array object refilled in place", "band below 0 Hz while the dominant line of the grid is at Nyquist", "EFDD with cm=2",
+                   "selected frequencies of integer type", "overlapping / repeated selections in one call"]
 RULE = ("spectral sequences: synthetic Hermitian (sums of rank-one bells with complex shapes + full-rank floor), half spectra from the 'cor' "
         "estimator, spectra of random responses through FDD / FDD_MS / EFDD; DF 1..15 line spacings, selected frequencies anywhere in the grid; "
         "postconditions on every SD_svalsvec and FDD_mpe call; non-trivial = band holds >= 3 lines and sigma1/sigma2 varies by > 1 % in it; "
@@ -136,6 +137,17 @@ def draw_requests(rng, freq, nsel=None):
         else:
             sel.append(float(rng.uniform(freq[1], freq[-2])))
     DF = float(rng.uniform(1.0, 15.0) * df)
+    u = rng.random()
+    if u < 0.2:
+        # the same peak asked for twice / overlapping bands in one call: every selection is answered on its own
+        base = sel[0]
+        sel.append(float(base) if rng.random() < 0.4 else float(np.clip(base + rng.uniform(-0.6, 0.6) * DF, freq[0] + 0.2 * df, freq[-1])))
+        if rng.random() < 0.5:
+            sel.append(float(np.clip(base + rng.uniform(-0.6, 0.6) * DF, freq[0] + 0.2 * df, freq[-1])))
+    elif u < 0.4 and freq[-1] >= 4:
+        # whole numbers of integer type (python ints or an integer array)
+        k = [int(v) for v in rng.integers(1, int(freq[-1]), size=len(sel))]
+        sel = k if rng.random() < 0.5 else np.array(k, dtype=rng.choice([np.int64, np.int32]))
     return sel, DF
 
 
@@ -172,7 +184,13 @@ def run_synth(ctx, rng):
         sel[0] = float(freq[0] + rng.uniform(0.5, 3) * df)
         DF = float(max(DF, sel[0] + rng.uniform(0.5, 3) * df))  # the band reaches below 0 Hz
         ctx.state("band below 0 Hz while the dominant line of the grid is at Nyquist")
-    Fn, Phi = fdd.FDD_mpe(Sval, Svec, freq, list(sel), DF=DF)
+    sel_arg = sel if isinstance(sel, np.ndarray) else list(sel)
+    if isinstance(sel, np.ndarray) or all(isinstance(v, int) for v in sel):
+        ctx.state("selected frequencies of integer type")
+    sel = [float(v) for v in sel]
+    if len(sel) >= 2 and min(abs(a - b) for i, a in enumerate(sel) for b in sel[i + 1:]) < 2 * DF:
+        ctx.state("overlapping / repeated selections in one call")
+    Fn, Phi = fdd.FDD_mpe(Sval, Svec, freq, sel_arg, DF=DF)
     check_pick(ctx, "pick@FDD_mpe(function, Hermitian)", "fn", Sc, freq, sel, DF, Fn, Phi)
     ctx.check(np.array_equal(S, Sc), "inputs_modified", "SD_svalsvec / FDD_mpe modified the spectral matrix")
     if rng.random() < 0.3:
@@ -201,7 +219,9 @@ def run_half(ctx, rng):
     Sval, Svec = fdd.SD_svalsvec(Sy)
     check_decomposition(ctx, Sc, Sval, Svec)
     sel, DF = draw_requests(rng, freq)
-    Fn, Phi = fdd.FDD_mpe(Sval, Svec, freq, list(sel), DF=DF)
+    sel_arg = sel if isinstance(sel, np.ndarray) else list(sel)
+    sel = [float(v) for v in sel]
+    Fn, Phi = fdd.FDD_mpe(Sval, Svec, freq, sel_arg, DF=DF)
     check_pick(ctx, "pick@FDD_mpe(function, half spectrum)", "fn_half", Sc, freq, sel, DF, Fn, Phi)
     if nref < nch:
         ctx.state("non-square spectrum")
@@ -238,6 +258,13 @@ def run_classes(ctx, rng):
         ss.run_all()
         sel = sorted(float(f * (1 + 0.01 * rng.uniform(-1, 1))) for f in fn)
         DF = float(rng.uniform(1, 10) * a.result.freq[1])
+        if rng.random() < 0.5:
+            # whole-number picks of integer type, the first one listed twice
+            ints = [int(round(f)) for f in fn if round(f) >= 1]
+            if ints:
+                DFi = float(rng.uniform(0.6, 1.5))
+                ss.mpe("fdd", sel_freq=ints + ints[:1], DF=DFi)
+                check_pick(ctx, "pick@FDD.mpe", "cls", np.asarray(a.result.Sy), np.asarray(a.result.freq), [float(v) for v in ints + ints[:1]], DFi, a.result.Fn, a.result.Phi)
         ss.mpe("fdd", sel_freq=list(sel), DF=DF)
         check_pick(ctx, "pick@FDD.mpe", "cls", np.asarray(a.result.Sy), np.asarray(a.result.freq), sel, DF, a.result.Fn, a.result.Phi)
         del rec[:]
